@@ -163,6 +163,23 @@ def gen_pretext(rng, inp, profile="edit", tagger=None, max_texels=None):
     return ptx, pieces
 
 
+def gen_primary_3hap(rng):
+    """Primary mode with two further haplotypes that both hold a chromosome of the same name (X) and an
+    unplaced scaffold: pretext-to-asm merges the two into one all_haplotigs FILE, which then lists the
+    name twice -- every scaffold of every haplotype must still arrive, each as its own record"""
+    scs, ptx = [], []
+    for h, hap in enumerate(["HAP1", "HAP2", "HAP3"]):
+        for k in (1, 2):
+            nm = f"{hap}_SCAFFOLD_{k}"
+            n1, n2 = rng.randint(300, 900), rng.randint(300, 900)
+            gl = rng.choice([7, 57, 100, 150, 333])   # every scaffold its own gap length (and type)
+            scs.append({"name": nm, "rows": [["F", nm, 1, n1, 1, []], ["G", gl, rng.choice(["scaffold", "contig"])], ["F", nm, n1 + gl + 1, n1 + gl + n2, 1, []]]})
+            tags = (["Painted", "Primary"] if h == 0 else ["Painted", hap.capitalize(), "X"]) if k == 1 else ([] if h == 0 else [hap.capitalize()])
+            ptx.append({"name": f"Scaffold_{len(ptx) + 1}", "rows": [["F", nm, 1, n1 + gl + n2, rng.choice([1, -1]), tags]]})
+    return {"gen": "primary-3hap", "input": {"scaffolds": scs}, "pretext": {"bpt": "1.000000", "scaffolds": ptx},
+            "prefix": "SUPER_", "out_name": rng.choice(["xx.1.tpf", "xx.1.agp"])}
+
+
 def gen_garbage(rng, inp, ptx):
     """perturb a PretextView-model map: shifted / dropped / duplicated /
     overlapping / out-of-range pieces, unknown scaffold names"""
